@@ -816,8 +816,8 @@ func init() {
 	ext["(*sync.RWMutex).Unlock"] = ext["(*sync.Mutex).Unlock"]
 	ext["(*sync.Pool).Get"] = func(fr *frame, a []value) value { return fr.i.poolGet(fr, a[0].(*value)) }
 	ext["(*sync.Pool).Put"] = func(fr *frame, a []value) value { fr.i.poolPut(a[0].(*value), a[1]); return nil }
-	ext["(*sync/atomic.Pointer).Load"] = func(fr *frame, a []value) value { return fr.i.atomicLoad(a[0].(*value)) }
-	ext["(*sync/atomic.Pointer).Store"] = func(fr *frame, a []value) value {
+	ext["(*sync/atomic.Pointer[T]).Load"] = func(fr *frame, a []value) value { return fr.i.atomicLoad(a[0].(*value)) }
+	ext["(*sync/atomic.Pointer[T]).Store"] = func(fr *frame, a []value) value {
 		fr.i.atomicStore(a[0].(*value), a[1])
 		return nil
 	}
@@ -887,7 +887,7 @@ func (i *Interp) assume(c *Term) {
 		i.unsupported("symbolic Assume during setup")
 	}
 	i.ps.assumes++
-	r := i.solver.CheckWith(c)
+	r := i.feasible(c)
 	if r == Unsat {
 		panic(pathEnd{kind: "assume"})
 	}
@@ -941,4 +941,3 @@ func (i *Interp) assert(cv value, msgv value) {
 		i.assertPC(c)
 	}
 }
-
